@@ -4,6 +4,7 @@ package p9
 // counting reader, and whole sessions against Server.Handle.
 
 import (
+	"strings"
 	"encoding/binary"
 	"encoding/json"
 	"errors"
@@ -696,6 +697,62 @@ func TestVerifC02(t *testing.T) {
 		}
 		vh02SessCuts = nil
 	}
+	// 8c. a tag used by a REJECTED frame is free again at once: the rejection is answered from the receive
+	// path (own tag for an unknown type, NOTAG for a bad body) and never activates the tag, so a later good
+	// frame under the same tag -- or under NOTAG -- must be answered like any other
+	{
+		short := vhFrame(byte(msgTwalk), 80, []byte{1, 0, 0, 0}) // body too short for fid, newfid, nwname
+		badcount := vh02Encode(81, &twrite{fid: 1, Offset: 0, Data: []byte{1, 2, 3}})
+		badcount[7+12] = 200 // count[4] larger than the payload that follows
+		for _, c := range [][][]byte{
+			{vhFrame(3, 77, []byte{9, 9, 9}), vh02Encode(77, &tclunk{fid: 9}), vh02Encode(78, &tclunk{fid: 9})},
+			{vhFrame(54, 77, nil), vh02Encode(77, &tclunk{fid: 9}), vhFrame(54, 77, nil), vh02Encode(77, &tclunk{fid: 8})},
+			{short, vh02Encode(80, &tclunk{fid: 9}), vh02Encode(0xffff, &tclunk{fid: 9})},
+			{badcount, vh02Encode(0xffff, &tclunk{fid: 9}), vh02Encode(81, &tclunk{fid: 9})},
+			{short, short, vh02Encode(0xffff, &tgetattr{fid: 3}), vhFrame(3, 0xffff, nil), vh02Encode(0xffff, &tclunk{fid: 9})},
+		} {
+			var stream []byte
+			for _, f := range c {
+				stream = append(stream, f...)
+			}
+			for _, path := range []string{"vec", "generic"} {
+				// written frame by frame with a pause: each good frame is answered before the next arrives, so the
+				// tag it used is idle again (a tag reused while in flight is legitimately dropped, not what is tested)
+				cuts, off := []int{}, 0
+				for _, f := range c {
+					off += len(f)
+					cuts = append(cuts, off)
+				}
+				vh02SessCuts = cuts
+				vh02Flush(o)
+				vh02Inflight("session "+path+" tag reuse after rejection", 8192, stream)
+				vh02Sess(o, r, path, 8192, stream, true)
+				vh02InflightDone()
+			}
+		}
+		vh02SessCuts = nil
+	}
+	// 8d. renegotiation: the frame that follows an Rversion is judged by the msize that Rversion announced,
+	// whatever the scheduling of the receiver goroutines.  The second Tversion carries a 65,000-digit
+	// (zero-padded) version number: parsing it keeps its handler busy while the next receiver starts.
+	{
+		nren := 120
+		if thorough {
+			nren = 1500
+		}
+		long := "9P2000.L.Google." + strings.Repeat("0", 65000) + "7"
+		for i := 0; i < nren; i++ {
+			first, second, size := uint32(0), uint32(1024), uint32(2000) // lowered: a 2000-byte frame must be refused
+			if i%2 == 1 {
+				first, second, size = 1024, 16384, 9000 // raised: a 9000-byte frame must be accepted
+			}
+			ver := long
+			if first != 0 {
+				ver = "9P2000.L.Google.7" // the second Tversion must itself fit in the first msize
+			}
+			vh02Reneg(o, first, second, ver, size)
+		}
+	}
 	// 9. fuzz-style loop (thorough: minutes; quick: seconds)
 	secs := vh02FuzzSeconds(4)
 	if thorough {
@@ -733,4 +790,52 @@ func TestVerifC02(t *testing.T) {
 	vh02id++
 	o.Emit(map[string]interface{}{"kind": "fuzz", "id": vh02id, "what": "session", "iterations": nfs, "seconds": sessSecs, "failures": 0})
 	_ = io.EOF
+}
+
+// vh02Reneg: [Tversion(first) answered,] Tversion(second, version string ver) answered, then one Tclunk-typed
+// frame of `size` bytes (trailing bytes after the last field are ignored by the decoder): is it answered?
+func vh02Reneg(o *vhOut, first, second uint32, ver string, size uint32) {
+	a, b, err := vh02SocketPair()
+	if err != nil {
+		panic(err)
+	}
+	srv := NewServer(vh02Attacher{})
+	done := make(chan struct{})
+	go func() { srv.Handle(b, b); close(done) }()
+	announced := uint32(0)
+	ok := true
+	for _, tv := range []struct {
+		m uint32
+		v string
+	}{{first, "9P2000.L.Google.7"}, {second, ver}} {
+		if tv.m == 0 {
+			continue
+		}
+		a.Write(vhFrame(byte(msgTversion), 0xffff, vhPutString(vhLE32(tv.m), tv.v)))
+		typ, _, rb, err := vhReadFrame(a, 10*time.Second)
+		if err != nil || typ != byte(msgRversion) || len(rb) < 4 {
+			ok = false
+			break
+		}
+		announced = binary.LittleEndian.Uint32(rb)
+	}
+	answered := false
+	if ok {
+		body := make([]byte, size-7)
+		binary.LittleEndian.PutUint32(body, 12345) // fid
+		go a.Write(vhFrame(byte(msgTclunk), 7, body))
+		if typ, tg, _, err := vhReadFrame(a, 10*time.Second); err == nil && tg == 7 && (typ == byte(msgRlerror) || typ == byte(msgRclunk)) {
+			answered = true
+		}
+	}
+	a.Close()
+	returned := false
+	select {
+	case <-done:
+		returned = true
+	case <-time.After(10 * time.Second):
+	}
+	vh02id++
+	o.Emit(map[string]interface{}{"kind": "reneg", "id": vh02id, "what": "frame after renegotiation", "first": first, "announced": announced,
+		"size": size, "answered": answered, "returned": returned, "verok": ok})
 }
